@@ -178,3 +178,10 @@ pub(crate) struct IssuedCid {
     pub(crate) id: ConnectionId,
     pub(crate) reset_token: ResetToken,
 }
+
+#[cfg(feature = "__verif-hooks")]
+#[allow(missing_docs, unreachable_pub, dead_code, unused_imports, unused_qualifications)]
+pub mod verif {
+    use super::*;
+    include!(concat!(env!("QUINN_VERIF_HOOKS"), "/proto/shared.rs"));
+}
